@@ -499,6 +499,31 @@ def rule_t5(ck, prog):
             ck.holds("C13-T5", st, K.loc(f), "paths consume exactly %s" % sorted(allowed_t))
 
 
+def rule_t5_detector(ck, prog, S):
+    """what the unit detector may consume in front of the header: white space only (a line terminator in front of the header
+    would make the unit boundaries depend on how CR LF is split over input calls)"""
+    f = prog.fn("scpiParser_detectProgramMessageUnit")
+    if f is None:
+        return
+    pg = S.pg(f)
+    hdr = list(f.calls("scpiLex_ProgramHeader"))
+    st = K.site(f, "before-the-header", 0)
+    if len(hdr) != 1:
+        ck.anchor_lost("C13-T5", "scpiLex_ProgramHeader call in the unit detector")
+        return
+    back = set()
+    reach_to = pg.reachable([pg.entry], blocked_edge=lambda e: e.kind == "elem" and e.node is hdr[0])
+    before = [c for c in f.calls() if (c.get("callee") or "").startswith(("scpiLex_", "skip")) and c is not hdr[0] and pg.before(c) in reach_to]
+    names = sorted({c["callee"] for c in before})
+    adv = [n for n, t in C.stores(f) if (t.get("path") or "").endswith(".pos") and n.get("op") in ("++", "+=") and pg.before(n) in reach_to]
+    if names == ["scpiLex_WhiteSpace"] and len(before) == 1 and not adv:
+        ck.holds("C13-T5", st, K.loc(f, before[0]), "only white space is consumed in front of the program header")
+    else:
+        ck.violated("C13-T5", st, K.loc(f, hdr[0]),
+                    "in front of the program header the unit detector consumes %s%s; IEEE 488.2 allows white space only - a leading line "
+                    "terminator must end an (empty) message of its own" % (names, " and advances the cursor itself" if adv else ""))
+
+
 def rule_t6(ck, prog):
     """conservation: bytes consumed by the recognisers a parser function calls == the length it reports"""
     from sa import bounds as B
@@ -565,6 +590,7 @@ def run(ck, fb, tier):
         rule_t3(ck, prog, S)
         rule_t5(ck, prog)
         rule_t6(ck, prog)
+        rule_t5_detector(ck, prog, S)
     ck.trust("spec/char_classes.json (488.2 section 7 classes and the leniencies of src/scpi.g)",
              "<ctype.h> classifiers by their C-locale definition")
     if tier == "thorough":
